@@ -1,8 +1,9 @@
 /- Line-protocol driver for C05 (content-stream interpreter model and ISO text-model spec).
 
 One request per line:
-  c05 <model|spec> a b c d e f | font <namehex> <first> <missing> <descent> <w…|-> | …
-      | form <a b c d e f|nomatrix> ; <res> ; <tokens> | … | page <res> | stream <tokens|-> | stream …
+  c05 <model|spec> a b c d e f | font <namehex> <first> <missing> <descent> <kind> <w…|-> | …
+      kind = s | cidh | t3:a,b,c,d,e,f | cidv:<dvy>:<vx,vy;…|->
+      | form <a b c d e f|nomatrix> ; <res> ; <tokens> | … | page <res> | stream <tokens|-> | stream … | bstream <hex|-> …   (mode modelb reads the bstreams)
   res    = inherit  |  res <hex=idx,…|-> <hex=idx,…|->          (fonts, xobjects)
   tokens = n<rat> s<hex|-> /<hex> [ … ] z b0 b1 o<hex>
 Reply: glyphs joined by `;`, each `a b c d e f adv x0 y0 x1 y1 size <fonthex> <colour|->`, `-` for none;
@@ -10,6 +11,7 @@ Reply: glyphs joined by `;`, each `a b c d e f adv x0 y0 x1 y1 size <fonthex> <c
 -/
 import PdfVerif.Model.Interp
 import PdfVerif.Spec.TextModel
+import PdfVerif.Model.ContentLex
 
 open PdfVerif PdfVerif.Content
 
@@ -95,6 +97,7 @@ structure Req where
   forms : Array Form := #[]
   res : Res := ⟨[], []⟩
   streams : Array (List Tok) := #[]
+  bstreams : Array Bytes := #[]
 
 def parseSection (r : Req) (sec : String) : Option Req :=
   match words sec with
@@ -102,12 +105,33 @@ def parseSection (r : Req) (sec : String) : Option Req :=
     match parseMatrix rest with
     | some m => some { r with mode := mode, ctm := m }
     | none => none
-  | "font" :: nm :: first :: mw :: desc :: ws =>
+  | "font" :: nm :: first :: mw :: desc :: kind :: ws =>
     match strOfHex nm, first.toNat?, ratOfString mw, ratOfString desc with
     | some nm, some first, some mw, some desc =>
       let ws := ws.filter (· != "-")
       match ws.mapM ratOfString with
-      | some widths => some { r with fonts := r.fonts.push ⟨nm, first, widths, mw, desc⟩ }
+      | some widths =>
+        let base : Font := ⟨nm, first, widths, mw, desc, none, false, false, [], 880⟩
+        if kind == "s" then some { r with fonts := r.fonts.push base }
+        else if kind == "cidh" then some { r with fonts := r.fonts.push { base with multibyte := true } }
+        else if kind.startsWith "t3:" then
+          match parseMatrix ((kind.drop 3).toString.splitOn ",") with
+          | some m =>
+            some { r with fonts := r.fonts.push { base with fm := some m } }
+          | none => none
+        else if kind.startsWith "cidv:" then
+          match (kind.drop 5).toString.splitOn ":" with
+          | [dvy, ds] =>
+            let pairs := if ds == "-" then some [] else (ds.splitOn ";").mapM (fun p =>
+              match (p.splitOn ",").mapM ratOfString with
+              | some [vx, vy] => some (vx, vy)
+              | _ => none)
+            match ratOfString dvy, pairs with
+            | some dvy, some pairs =>
+              some { r with fonts := r.fonts.push { base with multibyte := true, vertical := true, disps := pairs, dvy := dvy } }
+            | _, _ => none
+          | _ => none
+        else none
       | none => none
     | _, _, _, _ => none
   | "form" :: rest =>
@@ -129,6 +153,10 @@ def parseSection (r : Req) (sec : String) : Option Req :=
     match parseRes rest with
     | some (some res) => some { r with res := res }
     | _ => none
+  | ["bstream", h] =>
+    match bytesOfHex h with
+    | some bs => some { r with bstreams := r.bstreams.push bs }
+    | none => none
   | "stream" :: rest =>
     match parseToks rest #[] with
     | some toks => some { r with streams := r.streams.push toks.toList }
@@ -156,6 +184,13 @@ def handle (line : String) : String :=
     if r.mode == "model" then
       let (st, gs) := Interp.runPage env FUEL r.ctm r.res r.streams.toList
       if st.fuelOk then showGlyphs gs else "ERR fuel"
+    else if r.mode == "modelb" then
+      -- byte level: lexer model (C14) over the streams, assembler, interpreter model
+      match ContentLex.contentToks r.bstreams.toList with
+      | none => "ERR outside the byte-level view"
+      | some toks =>
+        let (st, gs) := Interp.runPage env FUEL r.ctm r.res [toks]
+        if st.fuelOk then showGlyphs gs else "ERR fuel"
     else if r.mode == "spec" then
       match parseInstrs r.streams.toList.flatten [] with
       | (is, []) =>
